@@ -23,6 +23,14 @@ CLAIMS = {
         technique="TLA+ reference semantics incl. maximal-run iterator; TLC-generated run lists from code-unit value classes replayed on the real RLVector by 6 builder decompositions; multi-block real traces validated by TLC",
         text="Bounded model checking of the Layer A semantics plus two-way conformance of the real run-length vector: all contents <= 10 bits, the boundary family (up to 65 blocks), and run lists whose gaps/lengths are drawn from the code-unit boundary classes {1,2,7,8,9,63,64,65,511,512} (<= 2-3 runs, with/without a run at 0 and trailing zeros), each built by per-run calls, bit at a time, split runs that must merge, set_len before every run, and conversions; every query for every argument and the run iterator with offset/rank/rank_zero after each item; recorded traces with 1..500 blocks (the sample index changes shape at 8), values needing up to 10 code units, early-closed blocks, lengths up to 2^31, validated by TLC.",
         design_ref="DESIGN.md section 6, C03"),
+    "C04": dict(
+        technique="TLA+ reference semantics of an indexed vector and of the reversed-bit stable sort (VecRef) self-checked by TLC; TLC-generated vectors replayed on WaveletMatrix/WMCore built from all five item types; real traces validated by TLC",
+        text="Bounded model checking of the Layer A indexed-vector semantics (map_up inverts map_down, the reordering is the stable sort by reversed bits, select inverts rank, on all vectors over {0,1,2,3,5} up to length 4-5) plus two-way conformance of the real wavelet matrix and core: all vectors over {0..3} (length <= 5, 6 thorough), {0..7} (<= 3, 4), {0,1} (<= 7, 9) and sparse alphabets around 2^k for k in {1,4,7,8,15,16}, built from u8/u16/u32/u64/usize; len, width, get, iter, inverse_select, contains, rank, select, select_iter, value_iter, predecessor, successor, map_down, map_down_with, map_down_with_two_positions, map_up_with for every index/rank 0..len+1 and huge arguments and every value incl. 2^width and 2^width+1; recorded skewed/uniform/missing-value vectors of width 1..16 validated by TLC.",
+        design_ref="DESIGN.md section 6, C04"),
+    "C05": dict(
+        technique="TLA+ state machine of raw/integer vectors (SDSVec.Step); TLC explores call histories exhaustively and by random walk and the harness replays them on the real vectors; random real histories validated by TLC; history independence checked against a canonically built real vector after every call",
+        text="Model-based conformance over operation histories: TLC enumerates all call histories of depth 2 (3 thorough) over real widths {1,7,31,32,33,63,64} with boundary values (all ones, top bit of the field, wider than the item) and random walks of depth 30-40 through the Layer A machine; the harness executes each on the real IntVector/RawVector and after EVERY call compares the result, the projected content, and - against a second real vector built canonically from the specification's state - ==, byte-identical serialization and count_ones. In the other direction random histories at widths 1..64 with arbitrary 64-bit values are validated by TLC step by step (result, state, history independence).",
+        design_ref="DESIGN.md section 6, C05"),
 }
 
 NOT_YET = {}
